@@ -178,6 +178,8 @@ func analyseBlocking(as AnalysisSpec, funcs []*FuncResult, work string, timeout 
 						// the callee's own events follow in this trace
 					case ev.Blocking || blockingExt[ev.What]:
 						fail("blocking external call " + ev.What + " at " + ev.Pos)
+					case ev.Extra["trusted"] != "" && findFunc(funcs, ev.What) == nil:
+						// external / trusted contract not marked blocking: assumed not to block (listed)
 					case strings.HasPrefix(ev.What, "func value"):
 						v.details = append(v.details, site+": user callback (assumed: "+as.Args["callbacks"]+")")
 						if as.Args["callbacks"] == "" {
